@@ -169,4 +169,14 @@ def txStep (s : St) (ms : List Op) : St × Res :=
 /-- a history of transactions -/
 def runTx (s : St) (txs : List (List Op)) : St := txs.foldl (fun s t => (txStep s t).1) s
 
+/-- executable form of `DescsCovered` (Lemmas/LCGood) for all rollapps at once: every descriptor M-LC holds lies inside a
+    state info of its rollapp.  `agreement_inv` needs it at designations (`SafeRun`); it is a consistency condition between
+    M-LC's descriptor table and M-Core that is not proved for all runs — the driver evaluates it in EVERY state of every
+    correspondence trace and reports `model-invariant-broken` if it fails. -/
+def coveredB (s : St) : Bool :=
+  s.descs.all fun d =>
+    match Core.getRa s.core d.ra with
+    | none => false
+    | some r => r.states.any fun st => decide (st.start ≤ d.h) && decide (d.h ≤ st.last)
+
 end DymVerif.LC
